@@ -50,6 +50,8 @@ class AccessMixin:
                     return [Res(p, self.const_expr(ex, ci.module, p))]
             raise Unsupported('class attribute %s.%s' % (v.name, attr))
         if isinstance(v, VRef):
+            if fc.spec and v.cls is None:
+                return self.field_read(p, v, attr, fc, node)     # spec expressions read fields; no dispatch needed
             out = []
             for (q, cls) in self.classof(p, v):
                 out.extend(self.ref_attr(q, VRef(v.t, cls), attr, fc, node))
